@@ -81,6 +81,16 @@ CLAIMED = {
         note='trusted: Lean kernel (+ propext, Classical.choice, Quot.sound); revm, hashes and RocksDB as parameters; the hooks (EVM recorder, table-write events, state probe) and the harness; see DESIGN.md §3',
         technique='Lean 4 proof (environment check) + context probe contract',
         ref="DESIGN.md §6 C19"),
+    "C11": dict(
+        text="Lean theorem: under writer-preferring read-write locks, any number of threads running programs that never re-acquire a held lock, acquire in strictly increasing rank and release what they acquire can never be stuck (unbounded threads and schedules; invariant + maximal-rank argument), every step decreases a measure, and the two hazards (re-entrant read with a queued writer, order inversion) are proved to deadlock; tie: the lock programs of every RPC method are recorded from the running code on every run (tracer hook), translated into Gen/LockTraces.lean with a proposed order, and every program is re-checked against the discipline by kernel `decide`",
+        note="trusted: Lean kernel (+ propext, Classical.choice, Quot.sound); writer-preferring semantics of std RwLock; the tracer and translator; executed paths only (coverage of methods is printed in the evidence); RocksDB/tokio internals and scheduler fairness not modelled",
+        technique="Lean 4 proof (progress + termination of disciplined lock programs) + traces regenerated from the running code, checked by decide",
+        ref="DESIGN.md §6 C11"),
+    "C12": dict(
+        text="Lean theorems over the middleware model: without the exact expected header a request is never marked; an unmarked request never reaches a protected method as call (401), notification (dropped) or batch entry at any position (401); public methods are always forwarded; correct credentials / auth off forward everything; regenerated tables checked by decide: every handler that reaches a state-changing engine entry point is on the protected list, the protected list only names registered methods, the running module's method table equals the source's, the set of mutating methods is the one the engine model knows; tie: the real server (built exactly as start() builds it) over real HTTP: every registered method x 8 header kinds x {call, notification}, protected methods at every batch position as call and notification mixed with public ones and malformed entries, auth on and off; observable state unchanged after every unauthenticated request",
+        note="trusted: Lean kernel (+ propext, Quot.sound); jsonrpsee/hyper/tower delivery contract; translator gen_methods.py; WebSocket not exercised",
+        technique="Lean 4 proof (middleware decision logic, induction over the batch) + regenerated method tables checked by decide + differential correspondence over real HTTP",
+        ref="DESIGN.md §6 C12"),
 }
 PENDING_REASON = "not claimed yet in this commit: model and theorems for this property are still being built (see DESIGN.md §10 order of work)"
 
